@@ -69,7 +69,7 @@ def _reveal(key, val):
     return val + add
 
 
-def build(spec, seed_as_key=None, perturb=None, seed=None):
+def build(spec, seed_as_key=None, perturb=None, seed=None, second_build=False):
     s = spec["seed"] if seed is None else seed
     as_key = spec["as_key"] if seed_as_key is None else seed_as_key
     b = gs.EngineBuilder(seed=jax.random.PRNGKey(s) if as_key else int(s), num_chains=spec["chains"])
@@ -98,6 +98,10 @@ def build(spec, seed_as_key=None, perturb=None, seed=None):
         b.set_jitter_fns(fns)
     eng = b.build()
     eng.sample_all_epochs()
+    if second_build:
+        eng2 = b.build()            # the same builder builds again: must be an identical, independent run
+        eng2.sample_all_epochs()
+        return eng.get_results(), states, eng2.get_results()
     return eng.get_results(), states
 
 
@@ -111,7 +115,11 @@ def everything(res):
 def oracle_probe(spec):
     spec = dict(spec, excluded=[])
     det = f"epochs={spec['epochs']} chains={spec['chains']} multi={spec['multi']} jitter={spec['jitter']} as_key={spec['as_key']}"
-    res, states = build(spec)
+    if spec["seed"] % 3 == 0:
+        res, states, res_again = build(spec, second_build=True)
+        require(tree_equal_bits(everything(res), everything(res_again)), "second-build-from-same-builder-differs", det)
+    else:
+        res, states = build(spec)
     base = everything(res)
     # --- reproducibility and seed representation
     # (one extra run with the other seed representation checks both laws; a plain rerun tells them apart on failure)
@@ -258,9 +266,62 @@ def oracle_random(c):
     return {"nt": bool(moved), "cls": [c["kernel"], f"chains{C}", "warm" if c["warm"] else "nowarm"]}
 
 
+# ------------------------------------------------------------------------------ separate interpreter processes (hash randomisation)
+def digest_of(spec):
+    import hashlib
+
+    res, _ = build(spec)
+    h = hashlib.sha256()
+    ev = everything(res)
+    for leaf in jax.tree_util.tree_leaves(ev):
+        h.update(np.ascontiguousarray(np.asarray(leaf)).tobytes())
+    return h.hexdigest()
+
+
+def gen_cross():
+    from hypothesis import strategies as st
+
+    base = el.schedule_strategy(max_dur=6, max_epochs=3, chains=(1, 2), want_script=False, min_kernels=3)
+
+    def fix(sp):
+        sp.update(as_key=False, multi=False, jitter={}, jitter_order=[], perturb=[0, "a", 1], excluded=[])
+        return sp
+
+    return base.map(fix)
+
+
+def oracle_cross(spec):
+    import json
+    import os
+    import subprocess
+    import sys
+
+    here = digest_of(spec)
+    digs = {"this": here}
+    for hs in ("1", "2", "3"):
+        env = dict(os.environ, PYTHONHASHSEED=hs)
+        out = subprocess.run([sys.executable, "-m", "checks.c10_repro", "--child", json.dumps(spec)], env=env, capture_output=True, text=True, cwd=os.environ.get("VERIF_DIR", "."))
+        line = [ln for ln in out.stdout.splitlines() if ln.startswith("DIGEST ")]
+        if not line:
+            raise RuntimeError(f"harness: child process failed: {out.stderr[-800:]}")
+        digs[hs] = line[-1].split()[1]
+    require(len(set(digs.values())) == 1, "result-depends-on-interpreter-hash-seed", f"digests {digs}; kernels={len(spec['kernels'])}; {spec}")
+    return {"nt": len(spec["kernels"]) >= 3, "cls": [f"kernels{len(spec['kernels'])}"]}
+
+
 SUBS = [
     Sub("probe_keys", oracle_probe, gen=gen_probe, n={"quick": 48, "thorough": 1600}, shrink_calls=30,
         what="builder runs with key-recording probe kernels: rerun, int seed == key, distinct keys, initial values + jitter, independence"),
     Sub("random_kernels", oracle_random, gen=gen_random, n={"quick": 12, "thorough": 400}, shrink_calls=10,
         what="RW / IWLS / NUTS / HMC: rerun bit-identical; perturbing one chain leaves the others unchanged"),
+    Sub("cross_process", oracle_cross, gen=gen_cross, n={"quick": 8, "thorough": 60}, shrink={"quick": False, "thorough": False}, min_per_shard=2,
+        what="the same run in separate interpreter processes with different PYTHONHASHSEED values gives bit-identical results"),
 ]
+
+
+if __name__ == "__main__":
+    import json
+    import sys
+
+    if len(sys.argv) >= 3 and sys.argv[1] == "--child":
+        print("DIGEST", digest_of(json.loads(sys.argv[2])))
